@@ -4,10 +4,19 @@ package lnmodel
 
 import (
 	"context"
+	"crypto/rand"
+	"crypto/sha256"
+	"encoding/hex"
 	"errors"
 	"fmt"
 	"sync"
 	"time"
+
+	"github.com/btcsuite/btcd/chaincfg"
+	"github.com/decred/dcrd/dcrec/secp256k1/v4"
+	"github.com/decred/dcrd/dcrec/secp256k1/v4/ecdsa"
+	"github.com/lightningnetwork/lnd/lnwire"
+	"github.com/lightningnetwork/lnd/zpay32"
 
 	"github.com/elnosh/gonuts/mint/lightning"
 	decodepay "github.com/nbd-wtf/ln-decodepay"
@@ -32,21 +41,23 @@ func (a Answer) String() string {
 
 type Invoice struct {
 	Hash, Request, Preimage string
-	Amount                  uint64
+	Amount                  uint64 // sat (floor of AmountMsat/1000)
+	AmountMsat              uint64
 	Settled                 bool
 	Owner                   string // mint name that created it ("" = external, created by the harness)
 	subs                    []*Sub
 }
 
 type Payment struct {
-	Hash      string
-	Amount    uint64 // sat
-	FeeLimit  uint64
-	Status    Answer // Succeeded | Pending | Failed (ledger truth as far as answered)
-	Payer     string
-	Partial   bool
-	Attempts  int
-	PayAnswer Answer
+	Hash       string
+	AmountMsat uint64 // what really leaves the node
+	Amount     uint64 // sat
+	FeeLimit   uint64
+	Status     Answer // Succeeded | Pending | Failed (ledger truth as far as answered)
+	Payer      string
+	Partial    bool
+	Attempts   int
+	PayAnswer  Answer
 }
 
 type Call struct {
@@ -76,6 +87,9 @@ type LN struct {
 	ErrText string
 	subCond *sync.Cond
 	Blocked int // number of subscriptions currently blocked in Recv
+	// Forged: BOLT11 strings made by ForgeInvoice -> msat
+	Forged          map[string]uint64
+	lastPartialMsat uint64
 }
 
 func New() *LN {
@@ -99,11 +113,69 @@ func (l *LN) NewExternalInvoice(amount uint64) *Invoice {
 	if err != nil {
 		panic(err)
 	}
-	inv := &Invoice{Hash: hash, Request: req, Preimage: pre, Amount: amount}
+	inv := &Invoice{Hash: hash, Request: req, Preimage: pre, Amount: amount, AmountMsat: amount * 1000}
 	l.mu.Lock()
 	l.Invoices[hash] = inv
 	l.mu.Unlock()
 	return inv
+}
+
+// NewExternalInvoiceMsat creates an external invoice for an amount that is not a whole number of sats.
+func (l *LN) NewExternalInvoiceMsat(msat uint64) *Invoice {
+	req, pre, hash, err := makeInvoice(msat, nil)
+	if err != nil {
+		panic(err)
+	}
+	inv := &Invoice{Hash: hash, Request: req, Preimage: pre, Amount: msat / 1000, AmountMsat: msat}
+	l.mu.Lock()
+	l.Invoices[hash] = inv
+	l.mu.Unlock()
+	return inv
+}
+
+// ForgeInvoice returns a BOLT11 string (signed by a throw-away key, as any third party can produce) that carries the
+// payment hash of an existing invoice but another amount. It is not registered as an invoice of its own: paying it
+// pays whoever knows the preimage of that hash.
+func (l *LN) ForgeInvoice(hash string, msat uint64) string {
+	hb, _ := hex.DecodeString(hash)
+	var h [32]byte
+	copy(h[:], hb)
+	req, _, _, err := makeInvoice(msat, &h)
+	if err != nil {
+		panic(err)
+	}
+	l.mu.Lock()
+	if l.Forged == nil {
+		l.Forged = map[string]uint64{}
+	}
+	l.Forged[req] = msat
+	l.mu.Unlock()
+	return req
+}
+
+func makeInvoice(msat uint64, fixedHash *[32]byte) (string, string, string, error) {
+	var random [32]byte
+	if _, err := rand.Read(random[:]); err != nil {
+		return "", "", "", err
+	}
+	preimage := hex.EncodeToString(random[:])
+	paymentHash := sha256.Sum256(random[:])
+	if fixedHash != nil {
+		paymentHash = *fixedHash
+		preimage = ""
+	}
+	invoice, err := zpay32.NewInvoice(&chaincfg.SigNetParams, paymentHash, time.Now(), zpay32.Amount(lnwire.MilliSatoshi(msat)), zpay32.Description("verif"))
+	if err != nil {
+		return "", "", "", err
+	}
+	str, err := invoice.Encode(zpay32.MessageSigner{SignCompact: func(msg []byte) ([]byte, error) {
+		key, err := secp256k1.GeneratePrivateKey()
+		if err != nil {
+			return nil, err
+		}
+		return ecdsa.SignCompact(key, msg, true), nil
+	}})
+	return str, preimage, hex.EncodeToString(paymentHash[:]), err
 }
 
 // Settle marks an invoice paid from outside (a user paying a mint quote). Subscribers are NOT woken:
@@ -212,6 +284,25 @@ func (l *LN) SumOut(payer string) (settled, inflight uint64) {
 	return
 }
 
+// SumOutMsat returns what really left (or may still leave) the payer's node in msat: amounts at msat precision plus
+// the whole fee limit of every settled / in-flight payment.
+func (l *LN) SumOutMsat(payer string) (settled, inflight uint64) {
+	l.mu.Lock()
+	defer l.mu.Unlock()
+	for _, p := range l.Payments {
+		if p.Payer != payer {
+			continue
+		}
+		switch p.Status {
+		case Succeeded:
+			settled += p.AmountMsat + p.FeeLimit*1000
+		case Pending:
+			inflight += p.AmountMsat + p.FeeLimit*1000
+		}
+	}
+	return
+}
+
 func (l *LN) Snapshot() string {
 	l.mu.Lock()
 	defer l.mu.Unlock()
@@ -244,7 +335,7 @@ func (c *Client) CreateInvoice(amount uint64) (lightning.Invoice, error) {
 		return lightning.Invoice{}, err
 	}
 	c.l.mu.Lock()
-	c.l.Invoices[hash] = &Invoice{Hash: hash, Request: req, Preimage: pre, Amount: amount, Owner: c.name}
+	c.l.Invoices[hash] = &Invoice{Hash: hash, Request: req, Preimage: pre, Amount: amount, AmountMsat: amount * 1000, Owner: c.name}
 	c.l.Calls = append(c.l.Calls, Call{Mint: c.name, Method: "CreateInvoice", Hash: hash, Amount: amount})
 	c.l.mu.Unlock()
 	return lightning.Invoice{PaymentRequest: req, PaymentHash: hash, Amount: amount, Expiry: lightning.InvoiceExpiryTime}, nil
@@ -274,7 +365,13 @@ func (c *Client) pay(method, request string, amountSat, maxFee uint64, partial b
 		return lightning.PaymentStatus{}, fmt.Errorf("bad invoice: %v", err)
 	}
 	hash := bolt.PaymentHash
-	if !partial {
+	amountMsat := uint64(bolt.MSatoshi)
+	if partial {
+		amountMsat = amountSat * 1000
+		if c.l.lastPartialMsat > 0 {
+			amountMsat = c.l.lastPartialMsat
+		}
+	} else {
 		amountSat = uint64(bolt.MSatoshi) / 1000
 	}
 	c.l.mu.Lock()
@@ -283,6 +380,14 @@ func (c *Client) pay(method, request string, amountSat, maxFee uint64, partial b
 	if s := c.l.PayScript[hash]; len(s) > 0 {
 		ans = s[0]
 		c.l.PayScript[hash] = s[1:]
+	}
+	if _, forged := c.l.Forged[request]; forged {
+		// the payee of a forged invoice is a throw-away key nobody routes to: the payment can only fail
+		c.l.Calls = append(c.l.Calls, Call{Mint: c.name, Method: method, Hash: hash, Amount: amountSat, FeeLimit: maxFee, Answer: "Failed"})
+		if q := c.l.Payments[hash]; q == nil {
+			c.l.Payments[hash] = &Payment{Hash: hash, Payer: c.name, Status: Failed, Attempts: 1, PayAnswer: Failed}
+		}
+		return lightning.PaymentStatus{PaymentStatus: lightning.Failed, PaymentFailureReason: "no route"}, nil
 	}
 	p := c.l.Payments[hash]
 	if p == nil {
@@ -295,7 +400,7 @@ func (c *Client) pay(method, request string, amountSat, maxFee uint64, partial b
 		return lightning.PaymentStatus{PaymentStatus: lightning.Failed, PaymentFailureReason: "already paid"}, nil
 	}
 	p.Attempts++
-	p.Amount, p.FeeLimit, p.PayAnswer = amountSat, maxFee, ans
+	p.Amount, p.AmountMsat, p.FeeLimit, p.PayAnswer = amountSat, amountMsat, maxFee, ans
 	c.l.Calls = append(c.l.Calls, Call{Mint: c.name, Method: method, Hash: hash, Amount: amountSat, FeeLimit: maxFee, Answer: ans.String()})
 	inv := c.l.Invoices[hash]
 	pre := "00"
@@ -326,6 +431,10 @@ func (c *Client) SendPayment(ctx context.Context, request string, maxFee uint64)
 }
 
 func (c *Client) PayPartialAmount(ctx context.Context, request string, amountMsat uint64, maxFee uint64) (lightning.PaymentStatus, error) {
+	c.l.mu.Lock()
+	c.l.lastPartialMsat = amountMsat
+	c.l.mu.Unlock()
+	defer func() { c.l.mu.Lock(); c.l.lastPartialMsat = 0; c.l.mu.Unlock() }()
 	return c.pay("PayPartialAmount", request, amountMsat/1000, maxFee, true)
 }
 
